@@ -2,6 +2,7 @@
 mod automata;
 mod charsets;
 mod components;
+mod ctor;
 mod dump;
 mod loopranges;
 mod manager;
@@ -71,6 +72,7 @@ fn main() {
         ("replay", "manager") => manager::replay(&a),
         ("drive", "manager") => manager::drive(&a),
         ("replay", "components") => components::replay(&a),
+        ("drive", "ctor") => ctor::drive(&a),
         ("drive", "c01") => regex::drive_c01(&a),
         ("drive", "c02") => regex::drive_c02(&a),
         ("drive", "c03") => regex::drive_c03(&a),
